@@ -7,7 +7,7 @@
    Model/Enum.v and its theorems belong to the enum check; this file only
    imports them. *)
 From Coq Require Import List ZArith Bool String Lia.
-From Shoot Require Import Model.Enum Bridge.EnumPrims.
+From Shoot Require Import Model.Enum Bridge.EnumPrims Bridge.EnumFacts.
 From ShootGen Require Import EnumGen.
 Import ListNotations.
 Local Open Scope Z_scope.
@@ -46,17 +46,25 @@ Proof.
   - unfold conv. destruct (d =? wrap (g_kind g) value); [reflexivity | exact IH].
 Qed.
 
-Theorem IsEnum_is_model : forall value,
-  IsEnum (g_kind g) (t_values ce g) value tt = (Returned (is_enum ce g value), tt).
-Proof. intros value. unfold IsEnum, is_enum. apply IsEnum_loop_bridge. Qed.
+(* value has the integer type TV of kind ktv: it lies in TV's range *)
+Theorem IsEnum_is_model : forall ktv value, in_range ktv value = true ->
+  IsEnum (g_kind g) ktv (t_values ce g) value tt = (Returned (is_enum ce g value), tt).
+Proof.
+  intros ktv value Hr. unfold IsEnum, is_enum, conv.
+  pose proof (representable_test (g_kind g) ktv value Hr) as Hrep.
+  rewrite IsEnum_loop_bridge.
+  destruct (wrap ktv (wrap (g_kind g) value) =? value);
+    destruct (Bool.eqb (wrap (g_kind g) value <? 0) (value <? 0));
+    cbn [negb orb andb] in *; rewrite <- Hrep; reflexivity.
+Qed.
 
 (* the translated helpers never panic and never outrun a loop bound *)
-Theorem enum_helpers_always_return : forall s tgt value,
+Theorem enum_helpers_always_return : forall s tgt ktv value, in_range ktv value = true ->
   (exists r, fst (ParseEnum (t_value_map ce g) s tt) = Returned r) /\
   (exists r, fst (TryParseEnum (t_value_map ce g) s tgt tt) = Returned r) /\
-  (exists r, fst (IsEnum (g_kind g) (t_values ce g) value tt) = Returned r).
+  (exists r, fst (IsEnum (g_kind g) ktv (t_values ce g) value tt) = Returned r).
 Proof.
-  intros. rewrite ParseEnum_is_model, TryParseEnum_is_model, IsEnum_is_model.
+  intros s tgt ktv value Hr. rewrite ParseEnum_is_model, TryParseEnum_is_model, (IsEnum_is_model ktv value Hr).
   repeat split; eexists; reflexivity.
 Qed.
 
@@ -85,15 +93,17 @@ Proof.
   - intros H. rewrite H. reflexivity.
 Qed.
 
-Theorem C12_is_enum_src : forall value,
-  IsEnum (g_kind g) (t_values ce g) value tt = (Returned true, tt)
-  <-> In (wrap (g_kind g) value) (t_values ce g).
+(* IsEnum: the value is representable in T and is one of Values() *)
+Theorem C12_is_enum_src : forall ktv value, in_range ktv value = true ->
+  (IsEnum (g_kind g) ktv (t_values ce g) value tt = (Returned true, tt)
+   <-> wrap (g_kind g) value = value /\ In value (t_values ce g)).
 Proof.
-  intros value. rewrite IsEnum_is_model. unfold is_enum. split.
-  - intros H. inversion H as [H1]. apply existsb_exists in H1 as (d & Hin & Hd).
-    apply Z.eqb_eq in Hd. subst. assumption.
-  - intros Hin. f_equal. f_equal. apply existsb_exists. exists (wrap (g_kind g) value).
-    split; [assumption | apply Z.eqb_refl].
+  intros ktv value Hr. rewrite (IsEnum_is_model ktv value Hr). unfold is_enum. split.
+  - intros H. inversion H as [H1]. apply andb_true_iff in H1 as [Hw He].
+    apply Z.eqb_eq in Hw. apply existsb_exists in He as (d & Hin & Hd).
+    apply Z.eqb_eq in Hd. rewrite Hw in Hd. subst. auto.
+  - intros [Hw Hin]. f_equal. f_equal. apply andb_true_iff. split; [apply Z.eqb_eq; assumption|].
+    apply existsb_exists. exists value. split; [assumption | rewrite Hw; apply Z.eqb_refl].
 Qed.
 
 End Bridge.
